@@ -575,18 +575,40 @@ FIXED = [
 ]
 
 
-def deep_probe(ctx: Ctx, rng, nbits: int, rows: int):
-    """one component with `nbits`+1 outputs whose prefixes become very unlikely (nbits fair coins and their parity): the Bernoulli
+def deep_probe(ctx: Ctx, rng, nbits: int, rows: int, rot: bool = False):
+    """one component with `nbits`+1 outputs whose prefixes become very unlikely (nbits coins and their parity): the Bernoulli
     parameter the real sampler uses at EVERY depth must still be w_{i+1}(prefix,1)/w_i(prefix) as evaluated on the compiled graphs
-    (an absolute floor or threshold on the prefix weight shows up from depth ~23 on)."""
+    (an absolute floor or threshold on the prefix weight shows up from depth ~23 on), AND must be the conditional probability known in
+    closed form for this circuit (a threshold inside the evaluator moves both sides of the first comparison together).
+    rot=True replaces the H on qubit 0 by R_X(0.3): the compiled graphs then carry floating factors (the complex64 branch of evaluate)."""
+    import math
     import jax
     import jax.numpy as jnp
     import tsim
     import tsim.sampler as S
     from tsim.compile.evaluate import evaluate
     n = nbits + 1
-    text = "H " + " ".join(map(str, range(nbits))) + "\n" + "\n".join(f"CX {i} {nbits}" for i in range(nbits)) + "\nM " + " ".join(map(str, range(n)))
-    where = dict(circuit=text, detectors=False, kind="deep")
+    first = "R_X(0.3) 0\nH " + " ".join(map(str, range(1, nbits))) if rot else "H " + " ".join(map(str, range(nbits)))
+    text = first + "\n" + "\n".join(f"CX {i} {nbits}" for i in range(nbits)) + "\nM " + " ".join(map(str, range(n)))
+    p0 = math.sin(0.15 * math.pi) ** 2 if rot else 0.5
+    where = dict(circuit=text, detectors=False, kind="deep", rot=bool(rot))
+
+    def weight(assign: dict) -> float:
+        """closed form: probability that the measurements in `assign` (qubit -> bit) come out as given"""
+        w = 1.0
+        for q, b in assign.items():
+            if q != nbits:
+                w *= (p0 if b else 1 - p0) if q == 0 else 0.5
+        if nbits in assign:
+            missing = [q for q in range(nbits) if q not in assign]
+            par = (sum(b for q, b in assign.items() if q != nbits) + assign[nbits]) % 2
+            if not missing:
+                w *= 1.0 if par == 0 else 0.0
+            elif missing == [0]:
+                w *= p0 if par == 1 else 1 - p0
+            else:
+                w *= 0.5
+        return w
     try:
         smp = tsim.Circuit(text).compile_sampler(seed=1)
         prog = smp._program
@@ -605,15 +627,17 @@ def deep_probe(ctx: Ctx, rng, nbits: int, rows: int):
             out, _ = S._sample_component(comp, jnp.asarray(f0), jax.random.key(0))
         fsel = np.asarray(comp.f_selection)
         fcols = np.zeros((rows, len(fsel)), dtype=bool)
+        closed_form = nout == n and sorted(order) == list(range(n))
         for i in range(nout):
             pre = np.concatenate([fcols, forced[:, :i]], axis=1)
             one = np.concatenate([pre, np.ones((rows, 1), dtype=bool)], axis=1)
             wi = np.abs(np.asarray(evaluate(comp.compiled_scalar_graphs[i], jnp.asarray(pre, dtype=jnp.bool_))).astype(np.complex128))
             w1 = np.abs(np.asarray(evaluate(comp.compiled_scalar_graphs[i + 1], jnp.asarray(one, dtype=jnp.bool_))).astype(np.complex128))
-            want = w1 / wi
+            with np.errstate(all="ignore"):
+                want = w1 / wi
             got = np.broadcast_to(np.asarray(fo.ps[i], dtype=np.float64), (rows,))
-            ctx.count(("deep", nbits, i), nontrivial=True, bucket="deep-prefix-conditionals", n=rows)
-            bad = np.abs(got - want) > 1e-3
+            ctx.count(("deep", nbits, i, rot), nontrivial=True, bucket="deep-prefix-conditionals" + ("-rotation" if rot else ""), n=rows)
+            bad = ~(np.abs(got - want) <= 1e-3)
             if np.any(bad):
                 a = int(np.argmax(bad))
                 ctx.violation("deep-conditional",
@@ -621,6 +645,20 @@ def deep_probe(ctx: Ctx, rng, nbits: int, rows: int):
                               f"w_{i + 1}(prefix,1)/w_{i}(prefix) = {want[a]:.6g} (prefix weight {wi[a]:.3g})",
                               dict(where, nbits=nbits, depth=i, prefix=forced[a, :i].astype(int).tolist()))
                 return
+            if closed_form:
+                for a in range(rows):
+                    asg = {order[c]: int(forced[a, c]) for c in range(i)}
+                    den = weight(asg)
+                    asg1 = dict(asg)
+                    asg1[order[i]] = 1
+                    num = weight(asg1)
+                    truth = num / den
+                    if not abs(got[a] - truth) <= 2e-3:
+                        ctx.violation("deep-conditional-closed-form",
+                                      f"at depth {i} of a {nout}-output component (prefix probability {den:.3g}) the sampler used the Bernoulli parameter "
+                                      f"{got[a]:.6g}; the conditional probability of this outcome is {truth:.6g}",
+                                      dict(where, nbits=nbits, depth=i, prefix=forced[a, :i].astype(int).tolist()))
+                        return
     except Exception as e:  # noqa
         ctx.violation("deep-probe-exception", f"deep-prefix probe raised {e!r}", dict(where, nbits=nbits, error=traceback.format_exc()[-1500:]))
 
@@ -684,6 +722,8 @@ def run(ctx: Ctx) -> int:
     if not ctx.violations:
         for nb in ([28] if quick else [26, 30, 40]):
             deep_probe(ctx, rng, nb, 6)
+            if not ctx.violations:
+                deep_probe(ctx, rng, nb, 6, rot=True)
     if model_usable and not ctx.violations:
         try:
             model_correspondence(ctx, state)
@@ -711,7 +751,7 @@ def replay(ctx: Ctx, obj) -> int:
     if "circuit" not in r:
         return 1
     if r.get("kind") == "deep":
-        deep_probe(ctx, ctx.np_rng(), int(r["nbits"]), 6)
+        deep_probe(ctx, ctx.np_rng(), int(r["nbits"]), 6, rot=bool(r.get("rot")))
         print("violations on replay:", [v["key"] for v in ctx.violations])
         return 1 if ctx.violations else 0
     case = CircuitCase(r["circuit"], bool(r.get("detectors")))
